@@ -93,9 +93,20 @@ func (x *Exec) havocLoop(st *State, nodes ...ast.Node) {
 	}
 	eff := x.p.effectsOfNodes(x.cur().fi, x.info(), nodes...)
 	x.applyEffects(st, eff, nil, nil)
-	// ghost counters and channel ghosts may change in any loop that makes calls
-	for _, k := range sortedKeys(st.ghost) {
-		st.ghost[k] = x.fresh("ghost."+k, SInt)
+	// ghost counters and channel ghosts may change in any loop that makes calls:
+	// the counters already touched on this path, and those the statements of
+	// the loop can change (counters named by the contracts of the functions
+	// called in the loop, by the unit's own ghost updates, by go statements and
+	// time.Sleep) - also when this path has not touched them yet
+	names := map[string]bool{}
+	for k := range st.ghost {
+		names[k] = true
+	}
+	for _, k := range x.ghostsChangedBy(nodes...) {
+		names[k] = true
+	}
+	for _, k := range sortedKeys(names) {
+		x.ghostSet(st, k, x.fresh("ghost."+k, SInt))
 	}
 	for _, k := range sortedKeys(st.heaps) {
 		if strings.HasPrefix(k, "ghost$sent") {
@@ -550,4 +561,85 @@ func (x *Exec) checkProgress(back *State, li *LoopInfo, at ast.Node) {
 		g := x.evalSpec(back, pc.Expr)
 		x.oblige(back, "progress", fmt.Sprintf("loop%d.%s", li.Ordinal, pc.Label), g, at)
 	}
+}
+
+// ghostsChangedBy: the ghost counters the given statements may change.
+func (x *Exec) ghostsChangedBy(nodes ...ast.Node) []string {
+	seen := map[string]bool{}
+	add := func(fi *FuncInfo) {
+		if fi == nil {
+			return
+		}
+		for _, n := range ghostsMentioned(fi) {
+			seen[n] = true
+		}
+		for _, g := range fi.GhostSets {
+			seen[g.Name] = true
+		}
+	}
+	info := x.info()
+	for _, nd := range nodes {
+		if nd == nil {
+			continue
+		}
+		ast.Inspect(nd, func(n ast.Node) bool {
+			switch c := n.(type) {
+			case *ast.GoStmt:
+				seen["goroutines"] = true
+			case *ast.CallExpr:
+				if name := markerName(c); name == "__ghostat" && len(c.Args) > 0 {
+					seen[strLit(c.Args[0], info)] = true
+					return true
+				}
+				var obj types.Object
+				switch f := c.Fun.(type) {
+				case *ast.Ident:
+					obj = info.ObjectOf(f)
+				case *ast.SelectorExpr:
+					obj = info.ObjectOf(f.Sel)
+				}
+				fn, _ := obj.(*types.Func)
+				if fn == nil {
+					return true
+				}
+				if fn.Pkg() != nil && fn.Pkg().Path() == "time" && fn.Name() == "Sleep" && x.unitTracksGhost("napped") {
+					seen["napped"] = true
+				}
+				if fi := x.p.Funcs[fn]; fi != nil {
+					add(fi)
+					return true
+				}
+				// interface method: every implementation in the module
+				if sig, ok := fn.Type().(*types.Signature); ok && sig.Recv() != nil {
+					if _, isIface := sig.Recv().Type().Underlying().(*types.Interface); isIface {
+						for _, t := range x.p.implementers(sig.Recv().Type()) {
+							ms := types.NewMethodSet(t)
+							if sel := ms.Lookup(fn.Pkg(), fn.Name()); sel != nil {
+								if m, ok := sel.Obj().(*types.Func); ok {
+									add(x.p.Funcs[m])
+								}
+							}
+						}
+					}
+				}
+			}
+			return true
+		})
+	}
+	return sortedKeys(seen)
+}
+
+// unitTracksGhost: the contract of the unit being verified talks about the
+// counter (the time slept since the last poll is only tracked for units whose
+// contract is about it).
+func (x *Exec) unitTracksGhost(name string) bool {
+	if x.top == nil {
+		return false
+	}
+	for _, n := range ghostsMentioned(x.top) {
+		if n == name {
+			return true
+		}
+	}
+	return false
 }
